@@ -7,7 +7,7 @@ import re
 
 from ..model import AnalysisError
 from .itmd_ir import canonical, show, space_of, Poly, tensor_factor, _Typing, _factor_indices
-from .itmd_sx import registry_sx as registry, definition_sx, substituted, builder
+from .itmd_sx import registry_sx as registry, definition_sx, substituted, builder, declared_spin_blocks, expected_spin_blocks
 
 EXPLANATION = (
     "Everything is decided on values obtained by abstract evaluation (sa.symex) of intermediates.py, nothing on the "
@@ -31,14 +31,22 @@ EXPLANATION = (
     "declared symmetry. R12g: the fully expanded variant (the library default) is well formed and the contracted tuple it "
     "returns is exactly the set of summation indices of the cached expression it returns, including the indices brought "
     "in by the expanded intermediates. R12j: the fully expanded variant equals the once expanded variant with the fully "
-    "expanded definitions of the referenced intermediates inserted (residuals: equals the once expanded variant). R12i: "
+    "expanded definitions of the referenced intermediates inserted (residuals: equals the once expanded variant). R12f: "
+    "RegisteredIntermediate.allowed_spin_blocks is evaluated for every intermediate; every block of the default indices on "
+    "which the definition does not vanish by spin conservation of its factors (<pq||rs>: as many alpha spins in pq as in rs, "
+    "f_pq: equal spins, referenced intermediates: recursively) must be declared allowed; declared but vanishing blocks are "
+    "notes. R12i: "
     "perturbation order of every term equals _order (maximum for residuals). R12h: the normal form equals the reference "
     "normal form recorded for the pinned tree (cross-checked once against the derived amplitudes/densities/residuals).")
 ASSUMPTIONS = [
     "real orbitals (<pq||rs> = <rs||pq>, f_pq = f_qp) as required by the factorisation routines",
     "the identity of each reference formula with the RSPT quantity was confirmed once by running the library "
     "(definition vs GroundState derivation); the static check decides agreement with that reference",
-    "R12f (declared spin blocks) is computed by the library at run time and not decided",
+    "R12f: spatial_orbitals.allowed_spin_blocks and Obj.allowed_spin_blocks are vocabulary, modelled by their contract (ERI "
+    "hard coded, t-amplitudes spin conserving between their halves, registered intermediates by their own "
+    "allowed_spin_blocks, Fock matrix/orbital energies without known blocks; RuntimeError when an index only sits on such "
+    "tensors); vanishing is decided by spin conservation of the factors only (no accidental cancellation between terms); "
+    "the tensor object lists its indices in the order of the default indices (C11)",
     "vocabulary with assumed contract (not looked into here): get_symbols, the tensor constructors of sympy_objects.py, "
     "tensor_names, RegisteredIntermediate.tensor/expand_itmd/validate_indices (C11), Expr(..).substitute_contracted(), "
     ".permute/.subs/.copy/.expand/.sympy/.atoms(Index), sort_idx_canonical, sympy Rational/S/Pow",
@@ -294,6 +302,40 @@ def r12j(ctx, defs):
     ctx.floor(rule, "definitions with both variants compared", n, 20)
 
 
+def r12f(ctx, defs):
+    """every spin block declared vanishing for the tensor symbol vanishes for the definition"""
+    rule = "R12f"
+    reg = registry(ctx)
+    n = 0
+    for name, info in reg.items():
+        if isinstance(defs[name], _Typing) or any(isinstance(defs[f[1]], _Typing) for _, fs in defs[name][0].terms
+                                                   for f in fs if f[0] == "itmd"):
+            continue
+        if _index_counts(defs[name][0], defs[name][1])[0] is not None:
+            continue  # ill-formed definition (R12a): blocks undefined
+        fn = ctx.model.fn("intermediates:RegisteredIntermediate.allowed_spin_blocks")
+        ref = f"intermediates:{name}.allowed_spin_blocks"
+        want = expected_spin_blocks(ctx, name)
+        got = declared_spin_blocks(ctx, name)
+        n += 1
+        order = "".join(info["default_idx"])
+        if got is None:
+            ctx.ok(rule, fn, f"{name}: the library declares no spin blocks (it gives up on tensors without known blocks), "
+                   "none is declared vanishing", fn=ref, key=f"{name} spin blocks")
+            ctx.note(f"R12f {name}: allowed_spin_blocks raises RuntimeError (Fock matrix without known spin blocks); the "
+                     f"definition is non-zero on {sorted(want)}")
+            continue
+        missing = sorted(want - got)
+        ctx.check(rule, fn, not missing, f"{name}: the {len(want)} non-vanishing blocks of the definition (order {order}) are declared allowed",
+                  f"{name}: allowed_spin_blocks = {sorted(got)} declares the block(s) {missing} (index order {order}) vanishing, but the "
+                  "definition does not vanish there by spin conservation of its integrals and amplitudes: spin integration drops "
+                  "these contributions of every expression containing the tensor", fn=ref, key=f"{name} spin blocks")
+        extra = sorted(got - want)
+        if extra:
+            ctx.note(f"R12f {name}: declared allowed but vanishing by spin conservation: {extra} (harmless, only extra work)")
+    ctx.floor(rule, "intermediates with spin blocks compared", n, 15)
+
+
 def r12i(ctx, defs):
     rule = "R12i"
     reg = registry(ctx)
@@ -372,6 +414,8 @@ def run(ctx):
         r12g(ctx, defs)
     if ctx.want("R12j"):
         r12j(ctx, defs)
+    if ctx.want("R12f"):
+        r12f(ctx, defs)
     if ctx.want("R12i"):
         r12i(ctx, defs)
     if ctx.want("R12h"):
